@@ -8,6 +8,105 @@ import Mdsort.Spec.Time
 namespace Mdsort.Proofs
 open Mdsort Mdsort.Model
 
+/-! ### flags -/
+
+theorem isupper_iff_toNat (c : UInt8) : isupper c = true ↔ 65 ≤ c.toNat ∧ c.toNat ≤ 90 := by
+  simp [isupper, UInt8.le_iff_toNat_le]
+theorem islower_iff_toNat (c : UInt8) : islower c = true ↔ 97 ≤ c.toNat ∧ c.toNat ≤ 122 := by
+  simp [islower, UInt8.le_iff_toNat_le]
+
+theorem mem_letterRange (lo : Nat) (hlo : lo + 26 ≤ 256) (c : UInt8) :
+    c ∈ Spec.letterRange lo ↔ lo ≤ c.toNat ∧ c.toNat < lo + 26 := by
+  simp only [Spec.letterRange, List.mem_map, List.mem_range]
+  constructor
+  · rintro ⟨i, hi, rfl⟩
+    simp [UInt8.toNat_ofNat']
+    omega
+  · rintro ⟨h1, h2⟩
+    refine ⟨c.toNat - lo, by omega, ?_⟩
+    apply UInt8.toNat_inj.mp
+    simp [UInt8.toNat_ofNat']
+    omega
+
+theorem testBit_false_of_lt_two_pow {F n i : Nat} (hF : F < 2 ^ n) (hi : n ≤ i) : F.testBit i = false :=
+  Nat.testBit_lt_two_pow (Nat.lt_of_lt_of_le hF (Nat.pow_le_pow_right (by decide) hi))
+
+theorem lt_of_testBit_of_lt_two_pow {F n i : Nat} (hF : F < 2 ^ n) (h : F.testBit i = true) : i < n := by
+  apply Nat.lt_of_not_le
+  intro hle
+  rw [testBit_false_of_lt_two_pow hF hle] at h
+  cases h
+
+theorem strflagsLoop_eq (offset : UInt8) (room F : Nat) (hF : F < 2 ^ room) :
+    ∀ fuel bit acc, F < 2 ^ (bit + fuel) → acc.length ≤ bit →
+      strflagsLoop offset room fuel (F >>> bit) bit acc =
+        some (acc ++ ((List.range' bit fuel).filter F.testBit).map (fun i => offset + i.toUInt8)) := by
+  intro fuel
+  induction fuel with
+  | zero => intro bit acc _ _; simp [strflagsLoop]
+  | succ fuel ih =>
+    intro bit acc hlt hacc
+    have hb : F.testBit bit = decide ((F >>> bit) % 2 = 1) := by
+      rw [Nat.testBit_eq_decide_div_mod_eq, Nat.shiftRight_eq_div_pow]
+    have hnext : (F >>> bit) / 2 = F >>> (bit + 1) := (Nat.shiftRight_succ F bit).symm
+    rw [strflagsLoop]
+    by_cases h0 : F >>> bit = 0
+    · simp only [h0, beq_self_eq_true, if_true]
+      have hlt' : F < 2 ^ bit := by
+        rw [Nat.shiftRight_eq_div_pow] at h0
+        exact (Nat.div_eq_zero_iff_lt (Nat.two_pow_pos bit)).mp h0
+      have : (List.range' bit (fuel + 1)).filter F.testBit = [] := by
+        rw [List.filter_eq_nil_iff]
+        intro i hi
+        rw [List.mem_range'_1] at hi
+        simp [testBit_false_of_lt_two_pow hlt' hi.1]
+      simp [this]
+    · have ih' := ih (bit + 1)
+      rw [show bit + 1 + fuel = bit + (fuel + 1) by omega] at ih'
+      by_cases h2 : (F >>> bit) % 2 = 0
+      · have hbf : F.testBit bit = false := by rw [hb]; simp [h2]
+        simp only [beq_iff_eq, h0, if_false, h2, if_true, hnext]
+        rw [ih' acc hlt (by omega)]
+        simp [List.range'_succ, hbf]
+      · have h3 : (F >>> bit) % 2 = 1 := (Nat.mod_two_eq_zero_or_one _).resolve_left h2
+        have hbt : F.testBit bit = true := by rw [hb]; simp [h3]
+        have hroom : bit < room := lt_of_testBit_of_lt_two_pow hF hbt
+        simp only [beq_iff_eq, h0, if_false, h2, hnext]
+        rw [if_neg (by omega)]
+        rw [ih' _ hlt (by simp; omega)]
+        simp [List.range'_succ, hbt]
+
+theorem range'_33 : List.range' 0 33 = List.range 26 ++ [26, 27, 28, 29, 30, 31, 32] := by decide
+
+theorem strflags_eq (F off bufsiz : Nat) (hF : F < 2 ^ 26) (hb : 27 ≤ bufsiz) (hoff : off + 26 ≤ 256) :
+    strflags F (UInt8.ofNat off) bufsiz =
+      some ((Spec.letterRange off).filter (fun c => F.testBit (c.toNat - off))) := by
+  have hF' : F < 2 ^ (bufsiz - 1) :=
+    Nat.lt_of_lt_of_le hF (Nat.pow_le_pow_right (by decide) (by omega))
+  have h := strflagsLoop_eq (UInt8.ofNat off) (bufsiz - 1) F hF' 33 0 []
+    (Nat.lt_of_lt_of_le hF (Nat.pow_le_pow_right (by decide) (by omega))) (by simp)
+  rw [Nat.shiftRight_zero] at h
+  rw [strflags, h, range'_33, List.filter_append]
+  have htail : List.filter F.testBit [26, 27, 28, 29, 30, 31, 32] = [] := by
+    rw [List.filter_eq_nil_iff]
+    intro i hi
+    have : 26 ≤ i := by simp at hi; omega
+    simp [testBit_false_of_lt_two_pow hF this]
+  rw [htail, Spec.letterRange, List.filter_map]
+  simp only [List.nil_append, List.append_nil, Option.some.injEq]
+  have hfil : List.filter ((fun c : UInt8 => F.testBit (c.toNat - off)) ∘ fun i => UInt8.ofNat (off + i)) (List.range 26)
+      = List.filter F.testBit (List.range 26) := by
+    apply List.filter_congr
+    intro i hi
+    rw [List.mem_range] at hi
+    simp only [Function.comp, UInt8.toNat_ofNat']
+    congr 1
+    omega
+  rw [hfil]
+  apply List.map_congr_left
+  intro i _
+  rw [UInt8.ofNat_add]
+
 /-- The letters of a flag set, upper case ascending then lower case ascending. -/
 def lettersOf (mf : MFlags) : List UInt8 :=
   (Spec.letterRange 65).filter (fun c => mf.upper.testBit (c.toNat - 65)) ++
@@ -20,41 +119,445 @@ def ofLetters (ls : List UInt8) : MFlags :=
 /-- Both masks fit the 26 letters. -/
 def MFlags.Valid (mf : MFlags) : Prop := mf.upper < 2 ^ 26 ∧ mf.lower < 2 ^ 26
 
-theorem flagsParse_eq_spec (name : Bytes) : flagsParse name = (Spec.nameFlags name).map ofLetters := by
-  sorry
+/-- The canonical rendering of a flag set. -/
+def flagCanon (mf : MFlags) : Bytes :=
+  [58, 50, 44] ++ (Spec.letterRange 65).filter (fun c => mf.upper.testBit (c.toNat - 65)) ++
+    (Spec.letterRange 97).filter (fun c => mf.lower.testBit (c.toNat - 97))
+
+theorem length_letterRange (lo : Nat) : (Spec.letterRange lo).length = 26 := by
+  simp [Spec.letterRange]
+
+theorem flagsStr_eq_flagCanon (mf : MFlags) (h : MFlags.Valid mf) :
+    flagsStr mf Gen.flagsMax = some (flagCanon mf) := by
+  have hu := strflags_eq mf.upper 65 (Gen.flagsMax - 3) h.1 (by decide) (by decide)
+  have hlen : ((Spec.letterRange 65).filter (fun c => mf.upper.testBit (c.toNat - 65))).length ≤ 26 := by
+    have := List.length_filter_le (fun c : UInt8 => mf.upper.testBit (c.toNat - 65)) (Spec.letterRange 65)
+    rwa [length_letterRange] at this
+  have hl := strflags_eq mf.lower 97
+    (Gen.flagsMax - 3 - ((Spec.letterRange 65).filter (fun c => mf.upper.testBit (c.toNat - 65))).length)
+    h.2 (by have : Gen.flagsMax = 64 := rfl; omega) (by decide)
+  rw [flagsStr, if_neg (by decide)]
+  simp only [show (UInt8.ofNat 65) = 65 from rfl, show (UInt8.ofNat 97) = 97 from rfl] at hu hl
+  simp only [hu, hl, flagCanon]
+
+/-- `ls` denotes the flag set `mf`. -/
+def Denotes (mf : MFlags) (ls : List UInt8) : Prop :=
+  ∀ c, (isupper c = true → ls.contains c = mf.upper.testBit (c.toNat - 65)) ∧
+       (islower c = true → ls.contains c = mf.lower.testBit (c.toNat - 97))
+
+theorem flagSuffix_eq_flagCanon (mf : MFlags) (ls : List UInt8) (h : Denotes mf ls) :
+    Spec.flagSuffix ls = flagCanon mf := by
+  unfold Spec.flagSuffix flagCanon
+  congr 1
+  · congr 1
+    apply List.filter_congr
+    intro c hc
+    rw [mem_letterRange 65 (by decide)] at hc
+    exact (h c).1 ((isupper_iff_toNat c).mpr (by omega))
+  · apply List.filter_congr
+    intro c hc
+    rw [mem_letterRange 97 (by decide)] at hc
+    exact (h c).2 ((islower_iff_toNat c).mpr (by omega))
+
+theorem denotes_lettersOf (mf : MFlags) : Denotes mf (lettersOf mf) := by
+  intro c
+  constructor
+  · intro hc
+    rw [isupper_iff_toNat] at hc
+    rw [Bool.eq_iff_iff, List.contains_iff_mem, lettersOf, List.mem_append, List.mem_filter, List.mem_filter,
+      mem_letterRange 65 (by decide), mem_letterRange 97 (by decide)]
+    constructor
+    · rintro (⟨_, h⟩ | ⟨h, _⟩)
+      · exact h
+      · omega
+    · intro h; exact Or.inl ⟨by omega, h⟩
+  · intro hc
+    rw [islower_iff_toNat] at hc
+    rw [Bool.eq_iff_iff, List.contains_iff_mem, lettersOf, List.mem_append, List.mem_filter, List.mem_filter,
+      mem_letterRange 65 (by decide), mem_letterRange 97 (by decide)]
+    constructor
+    · rintro (⟨h, _⟩ | ⟨_, h⟩)
+      · omega
+      · exact h
+    · intro h; exact Or.inr ⟨by omega, h⟩
 
 theorem flagsStr_eq_spec (mf : MFlags) (h : MFlags.Valid mf) :
     flagsStr mf Gen.flagsMax = some (Spec.flagSuffix (lettersOf mf)) := by
-  sorry
+  rw [flagsStr_eq_flagCanon mf h, flagSuffix_eq_flagCanon mf _ (denotes_lettersOf mf)]
 
-theorem flags_roundtrip (base : Bytes) (mf : MFlags) (h : MFlags.Valid mf) (hb : (58 : UInt8) ∉ base) :
-    flagsParse (base ++ Spec.flagSuffix (lettersOf mf)) = some mf := by
-  sorry
+theorem clrMask_testBit : ∀ k < 26, (2 ^ 32 - 1 - 1 <<< 18).testBit k = !(k == 18) := by decide
 
 theorem msgflags_eq_spec (src dst : Subdir) (mf : MFlags) (h : MFlags.Valid mf) :
     msgflags src dst mf = some (Spec.flagSuffix (Spec.adjustSeen (src == .new) (dst == .new) (lettersOf mf))) := by
-  sorry
+  have hS : isupper 83 = true := by decide
+  have hr := denotes_lettersOf mf
+  cases src <;> cases dst
+  · -- new, new
+    simp only [msgflags]
+    rw [flagsStr_eq_flagCanon mf h, flagSuffix_eq_flagCanon mf _ (by simpa [Spec.adjustSeen] using hr)]
+  · -- new, cur
+    simp only [msgflags, flagsSet, hS, if_true]
+    have hv : MFlags.Valid ⟨mf.upper ||| 1 <<< 18, mf.lower⟩ := ⟨Nat.or_lt_two_pow h.1 (by decide), h.2⟩
+    show flagsStr ⟨mf.upper ||| 1 <<< 18, mf.lower⟩ Gen.flagsMax = _
+    rw [flagsStr_eq_flagCanon _ hv]
+    rw [flagSuffix_eq_flagCanon]
+    intro c
+    constructor
+    · intro hc
+      have := (hr c).1 hc
+      rw [isupper_iff_toNat] at hc
+      have e : (c == 83) = decide (18 = c.toNat - 65) := by
+        rw [Bool.eq_iff_iff]; simp [← UInt8.toNat_inj]; omega
+      simp only [Spec.adjustSeen]
+      simp only [show ((Subdir.cur == Subdir.new) = false) from rfl, show ((Subdir.new == Subdir.new) = true) from rfl]
+      simp only [Bool.not_false, Bool.and_self, if_true]
+      show _ = (mf.upper ||| 1 <<< 18).testBit (c.toNat - 65)
+      rw [List.contains_cons, this, Nat.testBit_or, e, Nat.one_shiftLeft, Nat.testBit_two_pow, Bool.or_comm]
+    · intro hc
+      have := (hr c).2 hc
+      rw [islower_iff_toNat] at hc
+      have e : (c == 83) = false := by
+        simp [← UInt8.toNat_inj]; omega
+      simp only [Spec.adjustSeen]
+      simp only [show ((Subdir.cur == Subdir.new) = false) from rfl, show ((Subdir.new == Subdir.new) = true) from rfl]
+      simp only [Bool.not_false, Bool.and_self, if_true]
+      rw [List.contains_cons, this, e, Bool.false_or]
+  · -- cur, new
+    simp only [msgflags, flagsClr, hS, if_true]
+    have hv : MFlags.Valid ⟨mf.upper &&& (2 ^ 32 - 1 - 1 <<< 18), mf.lower⟩ :=
+      ⟨Nat.lt_of_le_of_lt Nat.and_le_left h.1, h.2⟩
+    show flagsStr ⟨mf.upper &&& (2 ^ 32 - 1 - 1 <<< 18), mf.lower⟩ Gen.flagsMax = _
+    rw [flagsStr_eq_flagCanon _ hv]
+    rw [flagSuffix_eq_flagCanon]
+    intro c
+    have hcf : (List.filter (fun c : UInt8 => c != 83) (lettersOf mf)).contains c = ((lettersOf mf).contains c && (c != 83)) := by
+      rw [Bool.eq_iff_iff]; simp [List.mem_filter]
+    constructor
+    · intro hc
+      have := (hr c).1 hc
+      rw [isupper_iff_toNat] at hc
+      have e : (c != 83) = !(c.toNat - 65 == 18) := by
+        rw [Bool.eq_iff_iff]; simp [← UInt8.toNat_inj]; omega
+      have hm := clrMask_testBit (c.toNat - 65) (by omega)
+      simp only [Spec.adjustSeen]
+      simp only [show ((Subdir.cur == Subdir.new) = false) from rfl, show ((Subdir.new == Subdir.new) = true) from rfl]
+      simp only [Bool.false_and, Bool.not_false, Bool.and_self, if_true, Bool.false_eq_true, if_false, hcf, this, e]
+      show _ = (mf.upper &&& (2 ^ 32 - 1 - 1 <<< 18)).testBit (c.toNat - 65)
+      rw [Nat.testBit_and, hm]
+    · intro hc
+      have := (hr c).2 hc
+      rw [islower_iff_toNat] at hc
+      have e : (c != 83) = true := by
+        simp [← UInt8.toNat_inj]; omega
+      simp only [Spec.adjustSeen]
+      simp only [show ((Subdir.cur == Subdir.new) = false) from rfl, show ((Subdir.new == Subdir.new) = true) from rfl]
+      simp only [Bool.false_and, Bool.not_false, Bool.and_self, if_true, Bool.false_eq_true, if_false, hcf, this, e, Bool.and_true]
+  · -- cur, cur
+    simp only [msgflags]
+    rw [flagsStr_eq_flagCanon mf h, flagSuffix_eq_flagCanon mf _ (by simpa [Spec.adjustSeen] using hr)]
+
+theorem strrchr_none (c : UInt8) : ∀ s : Bytes, c ∉ s → strrchr s c = none
+  | [], _ => rfl
+  | x :: r, h => by
+    have h1 : c ∉ r := fun h' => h (List.mem_cons_of_mem _ h')
+    have h2 : ¬ x = c := fun h' => h (h' ▸ List.mem_cons_self)
+    simp [strrchr, strrchr_none c r h1, h2]
+
+theorem strrchr_split (c : UInt8) (b : Bytes) (hb : c ∉ b) :
+    ∀ a : Bytes, strrchr (a ++ c :: b) c = some (c :: b)
+  | [] => by simp [strrchr, strrchr_none c b hb]
+  | x :: a => by
+    simp [strrchr, strrchr_split c b hb a]
+
+theorem exists_split_last (c : UInt8) : ∀ s : Bytes, c ∈ s → ∃ a b, s = a ++ c :: b ∧ c ∉ b
+  | [], h => by simp at h
+  | x :: r, h => by
+    by_cases hr : c ∈ r
+    · obtain ⟨a, b, e, hb⟩ := exists_split_last c r hr
+      exact ⟨x :: a, b, by simp [e], hb⟩
+    · have : c = x := by simpa [hr] using h
+      exact ⟨[], r, by simp [this], hr⟩
+
+theorem takeWhile_suffix_split (a b : Bytes) (hb : (58 : UInt8) ∉ b) :
+    ((a ++ 58 :: b).reverse.takeWhile (fun c => c != 58)).reverse = b := by
+  rw [List.reverse_append, List.reverse_cons, List.append_assoc, List.takeWhile_append_of_pos]
+  · simp
+  · intro x hx
+    rw [List.mem_reverse] at hx
+    simp only [bne_iff_ne, ne_eq]
+    rintro rfl
+    exact hb hx
+
+/-- One step of `ofLetters`. -/
+def flagStep (mf : MFlags) (c : UInt8) : MFlags := (flagsSet mf c).getD mf
+
+theorem flagsSet_isSome (mf : MFlags) (c : UInt8) : (flagsSet mf c).isSome = isalpha c := by
+  unfold flagsSet isalpha
+  cases hu : isupper c <;> cases hl : islower c <;> simp
+
+theorem flagsSetAll_eq : ∀ (ls : Bytes) (mf : MFlags),
+    flagsSetAll mf ls = if ls.all isalpha then some (ls.foldl flagStep mf) else none
+  | [], mf => by simp [flagsSetAll]
+  | c :: r, mf => by
+    have hs := flagsSet_isSome mf c
+    rw [flagsSetAll]
+    cases hf : flagsSet mf c with
+    | none =>
+      rw [hf] at hs
+      have hs' : isalpha c = false := by simpa using hs.symm
+      simp [hs']
+    | some mf' =>
+      rw [hf] at hs
+      simp only [flagsSetAll_eq r mf', List.all_cons, ← hs, Option.isSome_some, Bool.true_and, List.foldl_cons, flagStep, hf,
+        Option.getD_some]
+
+theorem flagsParse_tail (b : Bytes) :
+    (match (58 : UInt8) :: b with
+      | _ :: 50 :: 44 :: fl => flagsSetAll MFlags.empty fl
+      | _ => none) =
+    (match b with
+      | 50 :: 44 :: letters => if letters.all isalpha then some letters else none
+      | _ => none : Option (List UInt8)).map ofLetters := by
+  split
+  · rename_i fl h
+    simp only [List.cons.injEq] at h
+    obtain ⟨_, rfl⟩ := h
+    simp only [flagsSetAll_eq]
+    split
+    · rfl
+    · rfl
+  · rename_i h
+    split
+    · rename_i letters
+      exact absurd rfl (h _ letters)
+    · rfl
+
+theorem flagsParse_eq_spec (name : Bytes) : flagsParse name = (Spec.nameFlags name).map ofLetters := by
+  by_cases hc : (58 : UInt8) ∈ name
+  · obtain ⟨a, b, rfl, hb⟩ := exists_split_last 58 name hc
+    have hcont : (a ++ 58 :: b).contains 58 = true := by simp
+    simp only [flagsParse, strrchr_split 58 b hb a, Spec.nameFlags, hcont, takeWhile_suffix_split a b hb]
+    exact flagsParse_tail b
+  · have hcont : name.contains 58 = false := by simpa using hc
+    simp only [flagsParse, strrchr_none 58 name hc, Spec.nameFlags, hcont]
+    rfl
+
+theorem not_lower_of_upper {c : UInt8} (h : isupper c = true) : islower c = false := by
+  rw [isupper_iff_toNat] at h
+  cases hl : islower c
+  · rfl
+  · rw [islower_iff_toNat] at hl; omega
+
+theorem flagStep_upper (mf : MFlags) (c : UInt8) :
+    (flagStep mf c).upper = if isupper c then mf.upper ||| 1 <<< (c.toNat - 65) else mf.upper := by
+  unfold flagStep flagsSet
+  cases hu : isupper c <;> cases hl : islower c <;> simp
+
+theorem flagStep_lower (mf : MFlags) (c : UInt8) :
+    (flagStep mf c).lower = if islower c then mf.lower ||| 1 <<< (c.toNat - 97) else mf.lower := by
+  unfold flagStep flagsSet
+  cases hu : isupper c <;> cases hl : islower c <;> simp
+  rw [not_lower_of_upper hu] at hl
+  cases hl
+
+theorem testBit_one_shiftLeft (n m : Nat) : (1 <<< n).testBit m = (n == m) := by
+  rw [Nat.one_shiftLeft, Nat.testBit_two_pow, Bool.eq_iff_iff]; simp
+
+theorem foldl_flagStep_upper : ∀ (ls : Bytes) (mf : MFlags) (i : Nat),
+    (ls.foldl flagStep mf).upper.testBit i =
+      (mf.upper.testBit i || ls.any (fun c => isupper c && (c.toNat - 65 == i)))
+  | [], mf, i => by simp
+  | c :: r, mf, i => by
+    rw [List.foldl_cons, foldl_flagStep_upper r (flagStep mf c) i, flagStep_upper, List.any_cons]
+    cases hu : isupper c
+    · simp
+    · simp only [if_true, Nat.testBit_or, testBit_one_shiftLeft, Bool.true_and, Bool.or_assoc]
+
+theorem foldl_flagStep_lower : ∀ (ls : Bytes) (mf : MFlags) (i : Nat),
+    (ls.foldl flagStep mf).lower.testBit i =
+      (mf.lower.testBit i || ls.any (fun c => islower c && (c.toNat - 97 == i)))
+  | [], mf, i => by simp
+  | c :: r, mf, i => by
+    rw [List.foldl_cons, foldl_flagStep_lower r (flagStep mf c) i, flagStep_lower, List.any_cons]
+    cases hu : islower c
+    · simp
+    · simp only [if_true, Nat.testBit_or, testBit_one_shiftLeft, Bool.true_and, Bool.or_assoc]
+
+theorem any_lettersOf_upper (mf : MFlags) (h : MFlags.Valid mf) (i : Nat) :
+    (lettersOf mf).any (fun c => isupper c && (c.toNat - 65 == i)) = mf.upper.testBit i := by
+  rw [Bool.eq_iff_iff, List.any_eq_true]
+  constructor
+  · rintro ⟨c, hc, hp⟩
+    simp only [Bool.and_eq_true, beq_iff_eq] at hp
+    rw [← List.contains_iff_mem, ((denotes_lettersOf mf) c).1 hp.1, hp.2] at hc
+    exact hc
+  · intro hi
+    have hi26 : i < 26 := lt_of_testBit_of_lt_two_pow h.1 hi
+    have hn : (UInt8.ofNat (65 + i)).toNat = 65 + i := by rw [UInt8.toNat_ofNat']; omega
+    have hup : isupper (UInt8.ofNat (65 + i)) = true := by rw [isupper_iff_toNat, hn]; omega
+    refine ⟨UInt8.ofNat (65 + i), ?_, ?_⟩
+    · rw [← List.contains_iff_mem, ((denotes_lettersOf mf) _).1 hup, hn]
+      simpa using hi
+    · show (_ && (_ - _ == i)) = true
+      rw [hup, hn]; simp
+
+theorem any_lettersOf_lower (mf : MFlags) (h : MFlags.Valid mf) (i : Nat) :
+    (lettersOf mf).any (fun c => islower c && (c.toNat - 97 == i)) = mf.lower.testBit i := by
+  rw [Bool.eq_iff_iff, List.any_eq_true]
+  constructor
+  · rintro ⟨c, hc, hp⟩
+    simp only [Bool.and_eq_true, beq_iff_eq] at hp
+    rw [← List.contains_iff_mem, ((denotes_lettersOf mf) c).2 hp.1, hp.2] at hc
+    exact hc
+  · intro hi
+    have hi26 : i < 26 := lt_of_testBit_of_lt_two_pow h.2 hi
+    have hn : (UInt8.ofNat (97 + i)).toNat = 97 + i := by rw [UInt8.toNat_ofNat']; omega
+    have hup : islower (UInt8.ofNat (97 + i)) = true := by rw [islower_iff_toNat, hn]; omega
+    refine ⟨UInt8.ofNat (97 + i), ?_, ?_⟩
+    · rw [← List.contains_iff_mem, ((denotes_lettersOf mf) _).2 hup, hn]
+      simpa using hi
+    · show (_ && (_ - _ == i)) = true
+      rw [hup, hn]; simp
+
+theorem ofLetters_lettersOf (mf : MFlags) (h : MFlags.Valid mf) : ofLetters (lettersOf mf) = mf := by
+  have hu : (ofLetters (lettersOf mf)).upper = mf.upper := by
+    apply Nat.eq_of_testBit_eq
+    intro i
+    show ((lettersOf mf).foldl flagStep MFlags.empty).upper.testBit i = _
+    rw [foldl_flagStep_upper, any_lettersOf_upper mf h]
+    simp [MFlags.empty]
+  have hl : (ofLetters (lettersOf mf)).lower = mf.lower := by
+    apply Nat.eq_of_testBit_eq
+    intro i
+    show ((lettersOf mf).foldl flagStep MFlags.empty).lower.testBit i = _
+    rw [foldl_flagStep_lower, any_lettersOf_lower mf h]
+    simp [MFlags.empty]
+  cases mf
+  cases hm : ofLetters (lettersOf _)
+  rw [hm] at hu hl
+  simp only at hu hl
+  rw [hu, hl]
+
+theorem isalpha_of_mem_lettersOf (mf : MFlags) (c : UInt8) (hc : c ∈ lettersOf mf) : isalpha c = true := by
+  rw [lettersOf, List.mem_append, List.mem_filter, List.mem_filter,
+    mem_letterRange 65 (by decide), mem_letterRange 97 (by decide)] at hc
+  unfold isalpha
+  rcases hc with ⟨h, _⟩ | ⟨h, _⟩
+  · rw [(isupper_iff_toNat c).mpr (by omega)]; rfl
+  · rw [(islower_iff_toNat c).mpr (by omega)]; simp
+
+theorem flags_roundtrip (base : Bytes) (mf : MFlags) (h : MFlags.Valid mf) (hb : (58 : UInt8) ∉ base) :
+    flagsParse (base ++ Spec.flagSuffix (lettersOf mf)) = some mf := by
+  have _ := hb
+  have hsuf : Spec.flagSuffix (lettersOf mf) = 58 :: 50 :: 44 :: lettersOf mf := by
+    rw [flagSuffix_eq_flagCanon mf _ (denotes_lettersOf mf)]
+    simp [flagCanon, lettersOf]
+  have hall : (lettersOf mf).all isalpha = true := by
+    rw [List.all_eq_true]; exact isalpha_of_mem_lettersOf mf
+  have hno : (58 : UInt8) ∉ (50 :: 44 :: lettersOf mf : Bytes) := by
+    intro hm
+    rcases List.mem_cons.mp hm with h1 | hm
+    · cases h1
+    rcases List.mem_cons.mp hm with h1 | hm
+    · cases h1
+    have := isalpha_of_mem_lettersOf mf 58 hm
+    revert this; decide
+  rw [hsuf, flagsParse, strrchr_split 58 _ hno base]
+  simp only [flagsSetAll_eq, hall, if_true]
+  exact congrArg some (ofLetters_lettersOf mf h)
 
 /-! ### dates -/
 
 def twoDigits (n : Nat) : Bytes := [UInt8.ofNat (48 + n / 10), UInt8.ofNat (48 + n % 10)]
 
+theorem digitVal_ofNat : ∀ n < 10, digitVal (UInt8.ofNat (48 + n)) = some n := by decide
+
+theorem digitVal_inv (c : UInt8) (a : Nat) (h : digitVal c = some a) : a < 10 ∧ c = UInt8.ofNat (48 + a) := by
+  unfold digitVal isdigit at h
+  split at h
+  · rename_i hc
+    simp at h hc
+    have h1 := UInt8.le_iff_toNat_le.mp hc.1
+    have h2 := UInt8.le_iff_toNat_le.mp hc.2
+    simp at h1 h2
+    refine ⟨by omega, ?_⟩
+    apply UInt8.toNat_inj.mp
+    simp
+    omega
+  · simp at h
+
 theorem tzoff_accepts (plus : Bool) (hh mm : Nat) (rest : Bytes) (h1 : hh ≤ 23) (h2 : mm ≤ 59) :
     tzoff ((if plus then 43 else 45) :: (twoDigits hh ++ twoDigits mm ++ rest)) =
       some (Spec.zoneOffset (if plus then 1 else -1) hh mm) := by
-  sorry
+  have ha := digitVal_ofNat (hh / 10) (by omega)
+  have hb := digitVal_ofNat (hh % 10) (by omega)
+  have hc := digitVal_ofNat (mm / 10) (by omega)
+  have hd := digitVal_ofNat (mm % 10) (by omega)
+  have e1 : hh / 10 * 10 + hh % 10 = hh := by omega
+  have e2 : mm / 10 * 10 + mm % 10 = mm := by omega
+  simp only [twoDigits, List.cons_append, List.nil_append, tzoff, ha, hb, hc, hd]
+  cases plus <;> simp [Spec.zoneOffset] <;> omega
 
 theorem tzoff_only (s : Bytes) (z : Int) (h : tzoff s = some z) :
     ∃ (plus : Bool) (hh mm : Nat) (rest : Bytes), hh ≤ 23 ∧ mm ≤ 59 ∧
       s = (if plus then 43 else 45) :: (twoDigits hh ++ twoDigits mm ++ rest) ∧
       z = Spec.zoneOffset (if plus then 1 else -1) hh mm := by
-  sorry
+  match s, h with
+  | sg :: h1 :: h2 :: m1 :: m2 :: rest, h =>
+    simp only [tzoff] at h
+    split at h
+    · rename_i sign a b c d hsg ha hb hc hd
+      obtain ⟨ha1, rfl⟩ := digitVal_inv _ _ ha
+      obtain ⟨hb1, rfl⟩ := digitVal_inv _ _ hb
+      obtain ⟨hc1, rfl⟩ := digitVal_inv _ _ hc
+      obtain ⟨hd1, rfl⟩ := digitVal_inv _ _ hd
+      split at h
+      · simp at h
+      · split at h
+        · simp at h
+        · rename_i hh hm
+          have e1 : (a * 10 + b) / 10 = a := by omega
+          have e2 : (a * 10 + b) % 10 = b := by omega
+          have e3 : (c * 10 + d) / 10 = c := by omega
+          have e4 : (c * 10 + d) % 10 = d := by omega
+          simp only [Option.some.injEq] at h
+          by_cases hp : sg = 43
+          · refine ⟨true, a * 10 + b, c * 10 + d, rest, by omega, by omega, ?_, ?_⟩
+            · simp [twoDigits, e1, e2, e3, e4, hp]
+            · simp [hp] at hsg
+              subst hsg; subst h
+              simp [Spec.zoneOffset]; omega
+          · by_cases hm' : sg = 45
+            · refine ⟨false, a * 10 + b, c * 10 + d, rest, by omega, by omega, ?_, ?_⟩
+              · simp [twoDigits, e1, e2, e3, e4, hm']
+              · simp [hm'] at hsg
+                subst hsg; subst h
+                simp [Spec.zoneOffset]; omega
+            · simp [hp, hm'] at hsg
+    · simp at h
+  | [], h | [_], h | [_, _], h | [_, _, _], h | [_, _, _, _], h => simp [tzoff] at h
 
-/-- `timegm` agrees with counting days, for every date from year 1 on, every month, and every
-(possibly out-of-range, as `timegm` normalises) day, hour, minute and second count. -/
+theorem isLeap_cases (y : Nat) :
+    (Spec.isLeap y = true ∧ ((y % 4 = 0 ∧ y % 100 ≠ 0) ∨ y % 400 = 0)) ∨
+    (Spec.isLeap y = false ∧ ¬ ((y % 4 = 0 ∧ y % 100 ≠ 0) ∨ y % 400 = 0)) := by
+  unfold Spec.isLeap
+  by_cases h : ((y % 4 = 0 ∧ y % 100 ≠ 0) ∨ y % 400 = 0)
+  · left; refine ⟨?_, h⟩; simpa using h
+  · right; refine ⟨?_, h⟩; simpa using h
+
+theorem daysFromCivil_eq (y mon d : Nat) (hy : 1 ≤ y) (hm : mon ≤ 11) :
+    daysFromCivil y ((mon : Int) + 1) d = Spec.daysBeforeYear y + Spec.daysBeforeMonth y (mon + 1) + (d : Int) - 1 := by
+  have hmon : mon = 0 ∨ mon = 1 ∨ mon = 2 ∨ mon = 3 ∨ mon = 4 ∨ mon = 5 ∨ mon = 6 ∨ mon = 7 ∨ mon = 8 ∨ mon = 9 ∨ mon = 10 ∨ mon = 11 := by omega
+  rcases hmon with rfl | rfl | rfl | rfl | rfl | rfl | rfl | rfl | rfl | rfl | rfl | rfl
+  all_goals
+    rcases isLeap_cases y with ⟨hl, hl'⟩ | ⟨hl, hl'⟩ <;>
+    simp [daysFromCivil, Spec.daysBeforeYear, Spec.daysBeforeMonth, Spec.daysInMonth, List.range_succ, hl] <;>
+    omega
+
 theorem timegm_eq_epoch (y mon d h mi s : Nat) (hy : 1 ≤ y) (hm : mon ≤ 11) (hd : 1 ≤ d) :
     timegm { year := y, mon := mon, mday := d, hour := h, min := mi, sec := s } = Spec.epoch y (mon + 1) d h mi s := by
-  sorry
+  have _ := hd
+  simp only [timegm, Spec.epoch, daysFromCivil_eq y mon d hy hm]
 
 theorem true_age (strp : Bytes → Option (Tm × Bytes)) (zn : Bytes → Option Int) (s rest : Bytes)
     (y mon d h mi sec : Nat) (plus : Bool) (hh mm : Nat) (tail : Bytes)
@@ -64,16 +567,31 @@ theorem true_age (strp : Bytes → Option (Tm × Bytes)) (zn : Bytes → Option 
     (hne : Spec.epoch y (mon + 1) d h mi sec ≠ -1) :
     timeParse strp zn s = some (Spec.epoch y (mon + 1) d h mi sec - Spec.zoneOffset (if plus then 1 else -1) hh mm) ∧
     ∀ age now t, (dateMatches .gt age now t = decide (now - t > age)) ∧ (dateMatches .lt age now t = decide (now - t < age)) := by
-  sorry
+  refine ⟨?_, fun age now t => ⟨rfl, rfl⟩⟩
+  have ht := tzoff_accepts plus hh mm tail h1 h2
+  simp only [timeParse, hs, timegm_eq_epoch y mon d h mi sec hy hm hd, hz, tzparse, ht]
+  simp [hne]
 
-theorem scalars_table : Gen.scalars = Spec.units := by
-  sorry
+theorem scalars_table : Gen.scalars = Spec.units := by rfl
 
 theorem scalarLookup_eq_spec (lexeme : String) :
     (∀ v, scalarLookup lexeme = .value v ↔ Spec.unitOf lexeme = some v) := by
-  sorry
+  intro v
+  unfold scalarLookup Spec.unitOf
+  rw [scalars_table]
+  have e : (Spec.units.filter fun (x : String × Nat) => match x with | (name, _) => lexeme.toList.isPrefixOf name.toList) = (Spec.units.filter fun u => lexeme.toList.isPrefixOf u.1.toList) := rfl
+  rw [e]
+  generalize (Spec.units.filter fun u => lexeme.toList.isPrefixOf u.1.toList) = ms
+  match ms with
+  | [] => simp
+  | [(n, w)] => simp
+  | _ :: _ :: _ => simp
+
 
 theorem dateAge_spec (n u : Nat) : dateAge n u = (if n * u < 2 ^ 32 then some (n * u) else none) := by
-  sorry
+  unfold dateAge
+  by_cases h : n * u < 2 ^ 32
+  · rw [if_neg (by omega), if_pos h]
+  · rw [if_pos (by omega), if_neg h]
 
 end Mdsort.Proofs
